@@ -60,8 +60,7 @@ def run(ctx):
                     lambda t: t[0] == "ok_or" and is_call(t[1], name="get") and fld(kp, "identifier")(t[1][2][1])
                     and mentions(t[1][2][0], call("compute_binding_factor_list"))))]
         if lagrange_found_flag(ctx):
-            mech.append(("lagrange-x_i-found", succ_fact(
-                lambda t: is_call(t, name="derive_interpolating_value") and fld(kp, "identifier")(t[2][0]))))
+            mech.append(("lagrange-x_i-found", succ_fact(lagrange_of(fld(kp, "identifier"), sp))))
         refusal(ctx, f, "SEP", "G02:own-commitment-missing", mech, sinks, require_fail_err=False)
         refusal(ctx, f, "SEP", "G03:own-commitment-differs",
                 [("nonces.commitments==entry", cmp_fact("eq", fld(nonces, "commitments"), some(own_get), False))],
